@@ -731,7 +731,7 @@ func init() {
 	base := "one real Engine; 2-4 tasks doing Spawn / stop-and-wait / GetPID / Send over a pool of 1-3 ids; each operation stamped call/return with a global event counter; "
 	core.Register(&core.Profile{Property: "C10", Name: "registry", Weight: 3, Cfg: cfgEngine, Run: runRegistry(true),
 		Doc: base + "oracle: porcupine linearizability against 'set of registered ids' (Spawn wins iff absent, StopAndWait removes, GetPID reads), Producer runs once per winning spawn and never for a loser, one ActorDuplicateIdEvent per losing spawn, successive actors under one id never overlap"})
-	core.Register(&core.Profile{Property: "C02", Name: "engine-respawn", Weight: 1, Cfg: cfgEngine, Run: runRegistry(true),
+	core.Register(&core.Profile{Property: "C02", Name: "engine-respawn", Weight: 3, Cfg: cfgEngine, Run: runRegistry(true),
 		Doc: base + "actors that crash on a message (restart), are stopped while the restart buffer is replayed, and whose id is spawned again meanwhile; oracle for C02: Receive intervals of one actor never overlap, accesses to its state are ordered"})
 	core.Register(&core.Profile{Property: "C01", Name: "engine-respawn", Weight: 1, Cfg: cfgEngine, Run: runRegistry(true),
 		Doc: base + "ids spawned again after (or while) an earlier actor under the id is stopping (slow Stopped handlers); oracle for C01: at the final quiescent point every actor that was started and never stopped is registered and receives the messages sent to it"})
